@@ -193,8 +193,9 @@ void h_OffsetOpenPath(void) { ClipperOffset* s; Group* g; Path64 p; OffsetOpenPa
 /* models of the std algorithms used (spec-level: reverse, push_back of a copy, erase of the first element) and of NegatePath */
 static void vf_reverse_pts(Point64* d, size_t n) { for (size_t i = 0; i < n / 2; ++i) { Point64 t = d[i]; d[i] = d[n - 1 - i]; d[n - 1 - i] = t; } }
 static void vf_reverse_nrm(PointD* d, size_t n) { for (size_t i = 0; i < n / 2; ++i) { PointD t = d[i]; d[i] = d[n - 1 - i]; d[n - 1 - i] = t; } }
+static void vf_rotate_right_nrm(PointD* d, size_t n) { PointD l = d[n - 1]; for (size_t i = n - 1; i > 0; --i) d[i] = d[i - 1]; d[0] = l; }   /* std::rotate(rbegin(), rbegin() + 1, rend()) */
 static void vf_rotate_left_nrm(PointD* d, size_t n) { PointD f = d[0]; for (size_t i = 0; i + 1 < n; ++i) d[i] = d[i + 1]; d[n - 1] = f; }   /* emplace_back(norms[0]); erase(begin()) */
-//@expect file=CPP/Clipper2Lib/src/clipper.offset.cpp /norms\.emplace_back\(norms\[0\]\);\s*norms\.erase\(norms\.begin\(\)\);/
+//@expect file=CPP/Clipper2Lib/src/clipper.offset.cpp /(norms\.emplace_back\(norms\[0\]\);\s*norms\.erase\(norms\.begin\(\)\);|std::rotate\(norms\.r?begin\(\), norms\.r?begin\(\) \+ 1, norms\.r?end\(\)\);)/
 //@extract file=CPP/Clipper2Lib/src/clipper.offset.cpp func=NegatePath byptr=path rangefor=1 cpp=NOTHING ifdef=JOINED
 //@sub /PathD\* path/PathD* path/ min=0
 //@end
@@ -208,7 +209,9 @@ Point64 g_rev_buf[4];
 //@presub /Path64 reverse_path\(path\);/Path64 reverse_path = { g_rev_buf, path.size() }; for (size_t cc = 0; cc < path.size(); ++cc) g_rev_buf[cc] = path[cc];/
 //@presub /std::reverse\(reverse_path\.begin\(\), reverse_path\.end\(\)\);/vf_reverse_pts(reverse_path.data, reverse_path.size);/
 //@presub /std::reverse\(norms\.begin\(\), norms\.end\(\)\);/vf_reverse_nrm(norms.data, norms.size());/
-//@presub /norms\.emplace_back\(norms\[0\]\);\s*norms\.erase\(norms\.begin\(\)\);/vf_rotate_left_nrm(norms.data, norms.size());/
+//@presub /norms\.emplace_back\(norms\[0\]\);\s*norms\.erase\(norms\.begin\(\)\);/vf_rotate_left_nrm(norms.data, norms.size());/ min=0
+//@presub /std::rotate\(norms\.begin\(\), norms\.begin\(\) \+ 1, norms\.end\(\)\);/vf_rotate_left_nrm(norms.data, norms.size());/ min=0
+//@presub /std::rotate\(norms\.rbegin\(\), norms\.rbegin\(\) \+ 1, norms\.rend\(\)\);/vf_rotate_right_nrm(norms.data, norms.size());/ min=0
 //@sub /NegatePath\(self->norms\);/NegatePath(&self->norms);/ min=0
 //@end
 unsigned nondet_uint(void); int64_t nondet_i64(void); double nondet_double(void);
